@@ -848,6 +848,22 @@ def rebinding_helper(table, entry, key):
     return current, item
 
 
+def _guess(values, log):
+    positives = sum(1 for v in values if v > 0)
+    negatives = sum(1 for v in values if v < 0)
+    down = positives > negatives
+    log.append(f"guessing {'down' if down else 'up'}")
+    return down
+
+
+def result_temp(values, attrs, log):
+    if 'positive' in attrs:
+        down = attrs['positive'] == 'down'
+    else:
+        down = _guess(values, log)
+    return down, log
+
+
 def _lookup(table, key):
     try:
         return table[key]
@@ -1239,6 +1255,7 @@ CASES = {
     'inline_with_return': [([1, 2, 3], []), ([], [])],
     'generator_with_prologue': [({'_a': {'units': 'm'}, 'b': {'units': 'km'}},), ({'a': {}},), ({},)],
     'rebinding_helper': [({'bounds': 1}, {'name': 'z'}, 'z'), ({}, {'name': 'z'}, 'q'), ({'bounds': 2}, {'name': 'z'}, None)],
+    'result_temp': [([1, 2, -1], {}, []), ([-1], {'positive': 'down'}, []), ([], {}, [])],
     'inline_tail': [({'a': 1, 2: 'two'}, 'a'), ({'a': 1, 2: 'two'}, '2'), ({}, 'z')],
     'inline_statement': [(2,), (0,)],
     'inline_names_do_not_clash': [([1, 2],), ([],)],
